@@ -257,6 +257,9 @@ class Unknown(Val):
         return f"Unknown({self.tag})"
 
 
+ALT_LIMIT = 12
+
+
 class Alt(Val):
     def __new__(cls, vals: List[Val]):
         flat = []
@@ -268,6 +271,21 @@ class Alt(Val):
         # alternatives that are all scalars are one scalar Choice
         if flat and all(isinstance(v, Sc) for v in flat):
             return Sc(sym.Choice([v.e for v in flat]))
+        # several 'not modelled' alternatives are one: they all say the same thing, and keeping each of them makes every
+        # later operation multiply the alternatives (products of alternatives grew without bound on some rewrites)
+        unk = [v for v in flat if isinstance(v, Unknown)]
+        if len(unk) > 1:
+            flat = [v for v in flat if not isinstance(v, Unknown)] + [unk[0]]
+        seen, uniq = set(), []
+        for v in flat:
+            if id(v) not in seen:
+                seen.add(id(v))
+                uniq.append(v)
+        flat = uniq
+        if len(flat) > ALT_LIMIT:
+            return Unknown("too-many-alternatives", tuple(generic_elem(v) for v in flat[:4]))
+        if len(flat) == 1:
+            return flat[0]
         obj = object.__new__(cls)
         obj.vals = flat
         return obj
